@@ -49,6 +49,9 @@ trait MemDev<W> {
     fn pos(&mut self) -> Result<u64, ()>;
     fn set_pos(&mut self, p: u64) -> Result<(), ()>;
     fn len(&self) -> Option<usize>;
+    fn is_empty(&self) -> Option<bool> {
+        None
+    }
 }
 
 impl<W: SimWord, B: AsRef<[W]>> MemDev<W> for MemWordReader<W, B, true> {
@@ -110,6 +113,9 @@ impl<W: SimWord, B: AsMut<[W]> + AsRef<[W]>> MemDev<W> for MemWordWriterSlice<W,
     fn len(&self) -> Option<usize> {
         Some(MemWordWriterSlice::len(self))
     }
+    fn is_empty(&self) -> Option<bool> {
+        Some(MemWordWriterSlice::is_empty(self))
+    }
 }
 impl<W: SimWord, B: AsMut<Vec<W>> + AsRef<Vec<W>>> MemDev<W> for MemWordWriterVec<W, B> {
     fn read(&mut self) -> Option<Result<W, ()>> {
@@ -129,6 +135,9 @@ impl<W: SimWord, B: AsMut<Vec<W>> + AsRef<Vec<W>>> MemDev<W> for MemWordWriterVe
     }
     fn len(&self) -> Option<usize> {
         Some(MemWordWriterVec::len(self))
+    }
+    fn is_empty(&self) -> Option<bool> {
+        Some(MemWordWriterVec::is_empty(self))
     }
 }
 
@@ -315,6 +324,14 @@ fn run13<W: SimWord + PartialEq, D: MemDev<W>>(s: &S13, dev: &mut D, m: &mut Mod
                             "C13.len",
                             format!("op #{} len() = {}, model array has {} words", i, l, m.data.len()),
                         );
+                    }
+                    if let Some(e) = dev.is_empty() {
+                        if e != m.data.is_empty() {
+                            return ctx.fail(
+                                "C13.len",
+                                format!("op #{} is_empty() = {}, model array has {} words", i, e, m.data.len()),
+                            );
+                        }
                     }
                 }
             }
